@@ -231,7 +231,7 @@ def rule_adapt(prog, rep):
     rep.rule("C10.adapt", "interval adaptation: loop continues iff the end signs are equal; both signs +1 -> "
                           "(lower - e, lower), otherwise (upper, upper + e); e multiplied by expand_factor > 1; both "
                           "new end signs recomputed at the new ends; e starts at upper - lower; exact hits collapse "
-                          "the bracket", minimum=9)
+                          "the bracket; the loop state is floating whatever dtype the interval ends were given in", minimum=11)
     it = Interp(prog)
     EF = ("sym", "EXPAND_FACTOR")
     kw = {"lower": LO, "upper": UP, "expand_factor": EF}
@@ -299,6 +299,34 @@ def rule_adapt(prog, rep):
     rep.check(ok0, "C10.adapt", site, "adapt:initial-state",
               "starts from (lower, upper), step upper - lower, signs of func at the ends",
               f"initial state {show(init, 300)}")
+    # "any initial interval" includes integer ends (lower=-10, upper=10; the inverter's field converter is a plain
+    # jnp.asarray): the loop state must be floating, or the step e * expand_factor changes the carry's dtype
+    FLOATS = {("ext", "builtins.float"), ("ext", "jax.numpy.float32"), ("ext", "jax.numpy.float64"), ("ext", "jax.numpy.float_"),
+              ("ext", "jax.numpy.inexact"), ("ext", "jax.numpy.floating")}
+
+    def float_cast(tm, X):
+        for s_ in walk(tm):
+            if s_[0] == "call" and s_[1][0] == "ext" and s_[1][1].rsplit(".", 1)[-1] in ("asarray", "array", "astype", "full",
+                                                                                         "result_type", "promote_types") \
+                    and any(x == X for x in walk(s_)) and (any(a_ in FLOATS for a_ in s_[2]) or
+                                                           any(v_ in FLOATS for _, v_ in s_[3])):
+                return True
+            if s_[0] == "call" and s_[1][0] == "attr" and s_[1][2] == "astype" and any(x == X for x in walk(s_)) and \
+                    any(a_ in FLOATS for a_ in s_[2]):
+                return True
+        return False
+    for nm, tm, X in (("lower", lo0, LO), ("upper", up0, UP)):
+        if tm is None:
+            continue
+        bare = tm == X or (tm[0] == "call" and tm[1] == ("ext", "jax.numpy.asarray") and [a_ for a_ in tm[2]] + [v_ for _, v_ in tm[3]] == [X])
+        if float_cast(tm, X):
+            rep.check(True, "C10.adapt", site, f"adapt:{nm}-is-floating", f"{show(tm, 80)}", "")
+        elif bare:
+            rep.violated("C10.adapt", site, f"adapt:{nm}-is-floating",
+                         f"the adaptation loop starts from {show(tm, 100)} in the caller's dtype: integer interval ends give an "
+                         f"integer loop state, and the step (upper - lower) * expand_factor no longer fits it")
+        else:
+            rep.undecided("C10.adapt", site, f"adapt:{nm}-is-floating", f"cannot tell whether {show(tm, 120)} is floating")
     # exact hits collapse the bracket
     rl, ru = proj(t, 0), proj(t, 1)
     fs = ("attr", w, "lower")
